@@ -91,6 +91,18 @@ class CFG:
                 return ps[0]
         return None
 
+    def pos_cond(self, node_id):
+        """Position of a condition: the node itself, or (for `a && b`, `a || b`, which clang's CFG splits into one block
+        per operand and never lists as a whole) the position of its first evaluated operand."""
+        ps = self.pos(node_id)
+        if ps:
+            return ps[0]
+        for j, _ in self.fn.walk(node_id):
+            ps = self.pos(j)
+            if ps:
+                return ps[0]
+        return self.pos1(node_id)
+
     # ------------------------------------------------------------------
     def _dominators(self, entry, succ_of, pred_of, nodes):
         dom = {n: None for n in nodes}
